@@ -279,14 +279,24 @@ def r1_rewrite(C, rep, rid):
     rep.rule(rid, "the only payload rewrite is: clone of the onion payload with record 16 removed, re-serialised; guarded by parsed metadata containing 33001 or 33003")
     F, X = C.F, C.X
     aggs = F.aggregates(mm.RESP_ADT, "Continue")
-    rep.anchor(rid, "constructions of HtlcAcceptedResponse::Continue", len(aggs), 2)
+    rep.anchor(rid, "constructions of HtlcAcceptedResponse::Continue", len(aggs), 1)
     nsome = 0
-    for b, bi, s in aggs:
-        e = strip(X.operand(b, s["rv"]["ops"][0]))
+    for b0, bi0, s in aggs:
+        e = strip(X.operand(b0, s["rv"]["ops"][0]))
+        if not all(a[0] == "agg" and a[2] in ("None", "Some") for a in alts(e)):
+            # the optional payload is computed by a same-file helper (`Continue { payload: stripped_payload(req) }`):
+            # the rewrite discipline is checked where the payload is made
+            bfile = b0.span.get("f")
+            e = strip(mm.inline_pure(F, X, e, depth=2, keep=lambda n, bfile=bfile: F.by_cdef.get(n) is None or F.by_cdef[n].span.get("f") != bfile or n.startswith("<")))
         for a in alts(e):
             if a[0] == "agg" and a[2] == "None":
                 continue
+            if a[0] == "call" and a[1] == "std::ops::FromResidual::from_residual":
+                continue                  # `?` in an Option-returning helper: None
             nsome += 1
+            b, bi = b0, bi0
+            if a[0] == "agg" and a[2] == "Some" and len(a) > 4 and isinstance(a[4], tuple) and a[4][0] in F.by_cdef and isinstance(a[4][1], int) and a[4][1] >= 0:
+                b, bi = F.by_cdef[a[4][0]], a[4][1]
             fn = F.root_of(b)
             x = a[3][0][1] if a[0] == "agg" and a[2] == "Some" and a[3] else a
             ok = x[0] == "call" and x[1] == "tlv::ToBytes::to_bytes"
@@ -306,7 +316,7 @@ def r1_rewrite(C, rep, rid):
                    detail="" if okm else "rewritten payload is mutated by %s" % [(m.mname, show(strip(X.operand(b, m.args[1])))[:20] if len(m.args) > 1 else "") for m in muts])
             # guard: metadata parsed (Ok arm of try_into/try_from/from_bytes) and is_some() of get(33001) or get(33003)
             conds = lib.dominating_conditions(b, bi)
-            parsed = any(c.kind == "enum" and t == ("Ok",) for c, t in conds)
+            parsed = any(c.kind == "enum" and t == ("Ok",) for c, t in conds) or any(t == ("Ok",) for _fe, t, _c in lib.variant_facts(b, X, bi))
             gets = []
             for c in b.calls:
                 if c.self_ty == "tlv::SerializedTlvStream" and c.mname == "get" and len(c.args) > 1:
@@ -315,12 +325,15 @@ def r1_rewrite(C, rep, rid):
                         gets.append(k[2])
             okg = parsed and 33001 in gets and 33003 in gets
             # neither-present path must not reach the rewrite: remove both is_some true-edges -> rewrite unreachable
-            iss = [c for c in b.calls if c.name == "std::option::Option::is_some"]
+            iss = [c for c in b.calls if c.name in ("std::option::Option::is_some", "std::option::Option::is_none")]
             edges = []
             for c in iss:
+                present_is_true = c.name.endswith("is_some")          # the edge on which the record is present
                 ft = lib.bool_edge_targets(b, c.target) if c.target is not None and b.term(c.target)["k"] == "switch" else None
                 if ft:
-                    edges.append((c.target, ft[1]))
+                    cw0 = lib.decode_switch(b, c.target)
+                    neg0 = bool(cw0 is not None and cw0.negated)
+                    edges.append((c.target, ft[1] if (present_is_true != neg0) else ft[0]))
                     continue
                 # the test's result is not branched on directly but returned / moved (`a.is_some() || b.is_some()` as the
                 # value of a predicate helper): the branch is the later switch whose operand can be this very result
@@ -334,7 +347,7 @@ def r1_rewrite(C, rep, rid):
                     if srcs and (None, c.bb) in srcs:
                         ftw = lib.bool_edge_targets(b, W)
                         if ftw and ftw[0] != ftw[1]:
-                            edges.append((W, ftw[0] if cw.negated else ftw[1]))
+                            edges.append((W, ftw[1] if (present_is_true != bool(cw.negated)) else ftw[0]))
             unreachable = bi not in b.reach([0], removed_edges=edges) if edges else False
             rep.ob(rid, okg and unreachable, fn, "rewrite only when parsed metadata has 33001 or 33003", where=loc(s["sp"]), how="guards: Ok(parse) and is_some(get(33001)) or is_some(get(33003))",
                    detail="" if okg and unreachable else "payload rewrite is not confined to metadata that parsed and contains a trampoline record")
@@ -404,7 +417,21 @@ def p3_answer_reaches_everyone(C, rep, rid):
         for b in F.group(df):
             pops = [c for c in b.calls if c.name == "std::vec::Vec::pop" and ml.ONESHOT_SENDER in c.full]
             if not pops:
-                continue
+                # `for l in self.listeners.drain(..)` (possibly .rev()): the loop's Iterator::next plays the role of pop()
+                drains = [c for c in b.calls if c.name == "std::vec::Vec::drain" and ml.ONESHOT_SENDER in c.full]
+                if not drains:
+                    continue
+                full = "RangeFull" in drains[0].full or (len(drains[0].args) > 1 and "RangeFull" in show(strip(X.operand(b, drains[0].args[1]))))
+                rep.ob(rid, full, df, "the whole listener list is drained", where=drains[0].loc, how="drain(..)", detail="" if full else "only a part of the listener list is drained")
+                nxs = [c for c in b.calls if c.name in ("std::iter::Iterator::next", "std::iter::DoubleEndedIterator::next_back") and
+                       any(x[0] == "call" and x[3][1] == drains[0].bb for x in walk(strip(X.operand(b, c.args[0]))))]
+                bad_adapt = [x[1] for c in nxs for x in walk(strip(X.operand(b, c.args[0]))) if x[0] == "call" and x[1].startswith("std::iter::Iterator::") and
+                             x[1].split("::")[-1] in ("filter", "take", "skip", "step_by", "take_while", "skip_while", "filter_map", "nth")]
+                rep.ob(rid, len(nxs) == 1 and not bad_adapt, df, "one loop over every drained listener", where=drains[0].loc, how="Iterator::next over drain(..)",
+                       detail="" if len(nxs) == 1 and not bad_adapt else "the drained listeners are iterated through %s" % (bad_adapt or "%d loops" % len(nxs)))
+                if len(nxs) != 1:
+                    continue
+                pops = nxs
             p = pops[0]
             sw = p.target
             some = lib.enum_arm_target(b, sw, "Some") if sw is not None else None
@@ -430,7 +457,7 @@ def p3_answer_reaches_everyone(C, rep, rid):
                        detail="" if okk else "listeners are answered with %s" % show(e)[:100])
                 # sender is the popped one
                 es = strip(X.operand(b, snd.args[0]))
-                oks = any(x[0] == "call" and x[1] == "std::vec::Vec::pop" for x in walk(es))
+                oks = any(x[0] == "call" and x[1] in ("std::vec::Vec::pop", "std::vec::Vec::drain") for x in walk(es))
                 rep.ob(rid, oks, df, "the answered sender is the popped listener", where=snd.loc, how=show(es)[:60], detail="" if oks else "send on %s" % show(es)[:80], nontrivial=False)
             # the response parameter is never reassigned
             for i in range(1, b.arg_count + 1):
@@ -444,7 +471,7 @@ def p3_answer_reaches_everyone(C, rep, rid):
             if c.name.startswith("std::vec::Vec::") and ml.ONESHOT_SENDER in c.full and c.mname not in ("new", "len", "is_empty", "iter", "with_capacity"):
                 writers.add((F.root_of(b), c.mname, c.loc))
     for root, m, w in sorted(writers):
-        ok = (m == "push" and root in A.add_listener_fns) or (m == "pop" and root in A.drain_fns)
+        ok = (m == "push" and root in A.add_listener_fns) or (m in ("pop", "drain") and root in A.drain_fns)
         rep.ob(rid, ok, root, "listener list mutation", where=w, how=m, detail="" if ok else "the listener list is mutated by %s in %s" % (m, root))
 
 
